@@ -70,19 +70,23 @@ func c01Tokens(s string) (complete bool, toks []Obs) {
 }
 
 type c01Sink struct {
-	name     string
-	files    map[string]string // extra files
-	tpl      func(pre, post string) string
-	attr     string // "" = text sink; else the attribute whose value is observed
-	probe    string // data-m of the probe element ("" = "1")
-	last     bool   // observe the LAST element carrying the probe mark (constructs that instantiate the sink twice)
-	page     bool   // render files["page.vuego"] through Load (layouts apply) instead of the template string
+	name  string
+	files map[string]string // extra files
+	tpl   func(pre, post string) string
+	attr  string // "" = text sink; else the attribute whose value is observed
+	probe string // data-m of the probe element ("" = "1")
+	last  bool   // observe the LAST element carrying the probe mark (constructs that instantiate the sink twice)
+	page  bool   // render files["page.vuego"] through Load (layouts apply) instead of the template string
 }
 
 func c01Sinks() []c01Sink {
 	comp := map[string]string{
-		"comp.vuego":   `<p data-m="1">[{{ u }}]</p><p data-m="2" :title="u" data-t="x{{ u }}y">t</p>`,
-		"slotc.vuego":  `<div><slot :item="val">fb</slot></div>`,
+		"comp.vuego":  `<p data-m="1">[{{ u }}]</p><p data-m="2" :title="u" data-t="x{{ u }}y">t</p>`,
+		"slotc.vuego": `<div><slot :item="val">fb</slot></div>`,
+		// component files as editors leave them: front matter, a blank line, then the root wrapper; a leading line break; a comment first
+		"wrapfm.vuego":    "---\nk: v\n---\n\n<template :required=\"u\"><p data-m=\"1\" :title=\"u\">[{{ u }}]</p></template>\n",
+		"wrapnl.vuego":    "\n  <template :required=\"u\"><p data-m=\"1\">[{{ u }}]</p></template>\n",
+		"wrapcm.vuego":    "<!-- card --><template :required=\"u\"><p data-m=\"1\">[{{ u }}]</p></template>",
 		"layouts/l.vuego": `<html><body><p data-m="1">[{{ v }}]</p><main v-html="content"></main></body></html>`,
 	}
 	comp2 := map[string]string{
@@ -103,10 +107,18 @@ func c01Sinks() []c01Sink {
 		{name: "attr-interp", attr: "title", tpl: func(a, b string) string { return `<p data-m="1" title="` + a + `{{ v }}` + b + `">t</p>` }},
 		{name: "attr-bound", attr: "title", tpl: func(a, b string) string { return `<p data-m="1" :title="v" class="` + a + `">t</p>` }},
 		{name: "attr-bound-class-merge", attr: "class", tpl: func(a, b string) string { return `<p data-m="1" class="k" :class="v">t</p>` }},
-		{name: "if-branch", tpl: func(a, b string) string { return `<div v-if="yes"><p data-m="1">` + a + `{{ v }}` + b + `</p></div><div v-else>no</div>` }},
-		{name: "for-root", attr: "title", tpl: func(a, b string) string { return `<p data-m="1" v-for="x in vs" :title="x" data-t="{{ x }}">` + a + `{{ x }}` + b + `</p>` }},
-		{name: "for-root-text", tpl: func(a, b string) string { return `<p data-m="1" v-for="x in vs" title="{{ x }}">` + a + `{{ x }}` + b + `</p>` }},
-		{name: "for-child", tpl: func(a, b string) string { return `<ul><li v-for="x in vs"><p data-m="1">` + a + `{{ x }}` + b + `</p></li></ul>` }},
+		{name: "if-branch", tpl: func(a, b string) string {
+			return `<div v-if="yes"><p data-m="1">` + a + `{{ v }}` + b + `</p></div><div v-else>no</div>`
+		}},
+		{name: "for-root", attr: "title", tpl: func(a, b string) string {
+			return `<p data-m="1" v-for="x in vs" :title="x" data-t="{{ x }}">` + a + `{{ x }}` + b + `</p>`
+		}},
+		{name: "for-root-text", tpl: func(a, b string) string {
+			return `<p data-m="1" v-for="x in vs" title="{{ x }}">` + a + `{{ x }}` + b + `</p>`
+		}},
+		{name: "for-child", tpl: func(a, b string) string {
+			return `<ul><li v-for="x in vs"><p data-m="1">` + a + `{{ x }}` + b + `</p></li></ul>`
+		}},
 		{name: "for-child-attr", attr: "title", tpl: func(a, b string) string { return `<ul><li v-for="x in vs"><p data-m="1" :title="x">t</p></li></ul>` }},
 		{name: "include-static-prop", files: comp, tpl: func(a, b string) string { return `<template include="comp.vuego" u="{{ v }}"></template>` }},
 		{name: "include-bound-prop", files: comp, tpl: func(a, b string) string { return `<template include="comp.vuego" :u="v"></template>` }},
@@ -140,17 +152,31 @@ func c01Sinks() []c01Sink {
 		{name: "rawtext-xmp", tpl: func(a, b string) string { return `<xmp data-m="1">` + a + `{{ v }}` + b + `</xmp><p>after</p>` }},
 		{name: "rawtext-iframe", tpl: func(a, b string) string { return `<iframe data-m="1">` + a + `{{ v }}` + b + `</iframe><p>after</p>` }},
 		{name: "rawtext-noembed", tpl: func(a, b string) string { return `<noembed data-m="1">` + a + `{{ v }}` + b + `</noembed><p>after</p>` }},
-		{name: "rawtext-noframes", tpl: func(a, b string) string { return `<div v-for="x in vs"><noframes data-m="1">` + a + `{{ x }}` + b + `</noframes></div><p>after</p>` }},
-		{name: "rawtext-noscript", tpl: func(a, b string) string { return `<div v-if="yes"><noscript data-m="1">` + a + `{{ v }}` + b + `</noscript></div><p>after</p>` }},
-		{name: "rcdata-textarea", tpl: func(a, b string) string { return `<textarea data-m="1">` + a + `{{ v }}` + b + `</textarea><p>after</p>` }},
+		{name: "rawtext-noframes", tpl: func(a, b string) string {
+			return `<div v-for="x in vs"><noframes data-m="1">` + a + `{{ x }}` + b + `</noframes></div><p>after</p>`
+		}},
+		{name: "rawtext-noscript", tpl: func(a, b string) string {
+			return `<div v-if="yes"><noscript data-m="1">` + a + `{{ v }}` + b + `</noscript></div><p>after</p>`
+		}},
+		{name: "rcdata-textarea", tpl: func(a, b string) string {
+			return `<textarea data-m="1">` + a + `{{ v }}` + b + `</textarea><p>after</p>`
+		}},
 		// whitespace-preserving elements are written by a separate serialiser path
-		{name: "pre-text", tpl: func(a, b string) string { return `<pre><code data-m="1">` + a + `{{ v }}` + b + `</code></pre><p>after</p>` }},
+		{name: "pre-text", tpl: func(a, b string) string {
+			return `<pre><code data-m="1">` + a + `{{ v }}` + b + `</code></pre><p>after</p>`
+		}},
 		// the value as the argument of a function or filter: it is data there too, never a path to look up
-		{name: "fn-arg-filter", tpl: func(a, b string) string { return `<p data-m="1">` + a + `{{ nothing | default(v) }}` + b + `</p><p>after</p>` }},
+		{name: "fn-arg-filter", tpl: func(a, b string) string {
+			return `<p data-m="1">` + a + `{{ nothing | default(v) }}` + b + `</p><p>after</p>`
+		}},
 		{name: "fn-arg-call", tpl: func(a, b string) string { return `<p data-m="1">` + a + `{{ string(v) }}` + b + `</p><p>after</p>` }},
 		{name: "fn-arg-attr", attr: "title", tpl: func(a, b string) string { return `<p data-m="1" :title="string(v)">t</p><p>after</p>` }},
-		{name: "fn-arg-v-text", tpl: func(a, b string) string { return `<div v-for="x in vs"><p data-m="1" v-text="string(x)">old</p></div><p>after</p>` }},
-		{name: "fn-arg-piped", tpl: func(a, b string) string { return `<p data-m="1">` + a + `{{ v | string | default(v) }}` + b + `</p><p>after</p>` }},
+		{name: "fn-arg-v-text", tpl: func(a, b string) string {
+			return `<div v-for="x in vs"><p data-m="1" v-text="string(x)">old</p></div><p>after</p>`
+		}},
+		{name: "fn-arg-piped", tpl: func(a, b string) string {
+			return `<p data-m="1">` + a + `{{ v | string | default(v) }}` + b + `</p><p>after</p>`
+		}},
 		// a bound attribute written with a mustache: the interpolated text is the value, not a path to resolve once more
 		{name: "attr-bound-mustache", attr: "title", tpl: func(a, b string) string { return `<p data-m="1" :title="{{ v }}">t</p><p>after</p>` }},
 		{name: "attr-bound-mustache-mixed", attr: "title", tpl: func(a, b string) string { return `<p data-m="1" v-bind:title="{{ v }}">t</p><p>after</p>` }},
@@ -158,17 +184,39 @@ func c01Sinks() []c01Sink {
 			return `<template include="comp.vuego" :u="{{ v }}"></template>`
 		}},
 		{name: "pre-direct", tpl: func(a, b string) string { return `<pre data-m="1">` + a + `{{ v }}` + b + `</pre><p>after</p>` }},
-		{name: "pre-direct-loop", tpl: func(a, b string) string { return `<div v-for="x in vs"><pre data-m="1">` + a + `{{ x }}` + b + `</pre></div><p>after</p>` }},
-		{name: "textarea-in-branch", tpl: func(a, b string) string { return `<form v-if="yes"><textarea data-m="1" name="bio">` + a + `{{ v }}` + b + `</textarea></form><p>after</p>` }},
+		{name: "pre-direct-loop", tpl: func(a, b string) string {
+			return `<div v-for="x in vs"><pre data-m="1">` + a + `{{ x }}` + b + `</pre></div><p>after</p>`
+		}},
+		{name: "textarea-in-branch", tpl: func(a, b string) string {
+			return `<form v-if="yes"><textarea data-m="1" name="bio">` + a + `{{ v }}` + b + `</textarea></form><p>after</p>`
+		}},
 		{name: "pre-v-text", tpl: func(a, b string) string { return `<pre><code data-m="1" v-text="v">old</code></pre><p>after</p>` }},
-		{name: "pre-v-text-loop", tpl: func(a, b string) string { return `<pre><code data-m="1" v-for="x in vs" v-text="x">old</code></pre><p>after</p>` }},
-		{name: "pre-attr-bound", attr: "title", tpl: func(a, b string) string { return `<pre><code data-m="1" :title="v" title2="{{ v }}">t</code></pre><p>after</p>` }},
+		{name: "pre-v-text-loop", tpl: func(a, b string) string {
+			return `<pre><code data-m="1" v-for="x in vs" v-text="x">old</code></pre><p>after</p>`
+		}},
+		{name: "pre-attr-bound", attr: "title", tpl: func(a, b string) string {
+			return `<pre><code data-m="1" :title="v" title2="{{ v }}">t</code></pre><p>after</p>`
+		}},
 		{name: "textarea-v-text", tpl: func(a, b string) string { return `<textarea data-m="1" v-text="v">old</textarea><p>after</p>` }},
 		{name: "rawtext-include-prop", files: map[string]string{"raw.vuego": `<xmp data-m="1">[{{ u }}]</xmp><p>after</p>`}, tpl: func(a, b string) string { return `<template include="raw.vuego" :u="v"></template>` }},
 		// <template v-keep>: the tag itself is written to the output, with the attributes it was given
-		{name: "keep-include-bound-prop-attr", files: comp, attr: "u", probe: "3", tpl: func(a, b string) string { return `<template include="comp.vuego" v-keep data-m="3" :u="v"></template><p>after</p>` }},
-		{name: "keep-include-interp-prop-attr", files: comp, attr: "u", probe: "3", tpl: func(a, b string) string { return `<template include="comp.vuego" v-keep data-m="3" u="{{ v }}"></template><p>after</p>` }},
-		{name: "keep-include-bound-prop", files: comp, tpl: func(a, b string) string { return `<template include="comp.vuego" v-keep :u="v"></template><p>after</p>` }},
+		{name: "keep-include-bound-prop-attr", files: comp, attr: "u", probe: "3", tpl: func(a, b string) string {
+			return `<template include="comp.vuego" v-keep data-m="3" :u="v"></template><p>after</p>`
+		}},
+		{name: "keep-include-interp-prop-attr", files: comp, attr: "u", probe: "3", tpl: func(a, b string) string {
+			return `<template include="comp.vuego" v-keep data-m="3" u="{{ v }}"></template><p>after</p>`
+		}},
+		{name: "keep-include-bound-prop", files: comp, tpl: func(a, b string) string {
+			return `<template include="comp.vuego" v-keep :u="v"></template><p>after</p>`
+		}},
+		{name: "include-wrapper-after-front-matter", files: comp, tpl: func(a, b string) string { return `<template include="wrapfm.vuego" :u="v"></template><p>after</p>` }},
+		{name: "include-wrapper-after-front-matter-attr", files: comp, attr: "title", tpl: func(a, b string) string {
+			return `<template include="wrapfm.vuego" u="{{ v }}"></template><p>after</p>`
+		}},
+		{name: "include-wrapper-after-line-break", files: comp, tpl: func(a, b string) string { return `<template include="wrapnl.vuego" :u="v"></template><p>after</p>` }},
+		{name: "include-wrapper-after-comment", files: comp, tpl: func(a, b string) string {
+			return `<div v-for="x in vs"><template include="wrapcm.vuego" :u="x"></template></div><p>after</p>`
+		}},
 		{name: "chain-branch-v-text", tpl: func(a, b string) string { return `<p v-if="no">n</p><p data-m="1" v-else v-text="v">old</p>` }},
 	}
 }
@@ -438,8 +486,10 @@ func runC01(r *Run) {
 					want = v
 				case "keep-include-bound-prop-attr", "keep-include-interp-prop-attr":
 					want = v
-				case "keep-include-bound-prop":
+				case "keep-include-bound-prop", "include-wrapper-after-front-matter", "include-wrapper-after-line-break", "include-wrapper-after-comment":
 					want = "[" + v + "]"
+				case "include-wrapper-after-front-matter-attr":
+					want = v
 				case "v-text", "attr-bound", "for-child-attr", "include-bound-prop-attr", "chain-branch-v-text", "slot-twice-include-prop-attr", "pre-v-text", "pre-v-text-loop", "pre-attr-bound", "textarea-v-text":
 					want = v
 				case "attr-bound-class-merge":
